@@ -155,3 +155,25 @@ META.update({
         text="Exploration: (b) the real client library with/without a configured user, will on/off, a gateway that ignores 0..RetryCount+1 CONNECTs, repeated Connect calls and further API traffic: no AUTH datagram ever without a user; with a user every CONNECT datagram (first and retried) is immediately followed by an AUTH carrying exactly the configured credentials. (a) the three command-line tools over the exhaustive flag/environment matrix are checked by the part cli-refuses-plaintext.",
         note=_CL_NOTE, technique="PBT over client configurations and connect-retry schedules; exhaustive enumeration of the CLI flag matrix"),
 })
+CHECKS["C05"] = dict(parts=[part("predefined-lookups", "pure", "TestC05", 20_000, 2_000_000)])
+CHECKS["C19"] = dict(parts=[part("budgets-exact", "pure", "TestC19", 5000, 500_000)])
+CHECKS["C29"] = dict(parts=[part("id-sequence", "pure", "TestC29Seq", 2000, 100_000, race=True, death_is_violation=True, death_kind="data-race-or-crash/id-sequence", env={"GORACE": "halt_on_error=1"}),
+                            part("store-linearizable", "pure", "TestC29Store", 2000, 200_000, race=True, death_is_violation=True, death_kind="data-race-or-crash/store", env={"GORACE": "halt_on_error=1"})])
+CHECKS["C18"] = dict(parts=[part("finished-stays-finished", "pure", "TestC18", 5000, 300_000, race=True, death_is_violation=True, death_kind="panic-or-data-race/transaction", env={"GORACE": "halt_on_error=1"})])
+_PURE_NOTE = "Pure library code called in-process; no hooks needed. Built with go1.26.8."
+META.update({
+    "C05": dict(
+        text="Exploration: all 81 predefined maps over clients {'*',a} x IDs {1,2} x names {x,y,absent} (exhaustive) plus the repository's own topics.yaml, then random maps over 4 clients, 8 IDs and 5 names, each queried for every client, ID and name; oracle: GetTopicName equals a reference lookup (client entry, else '*' entry) and every ID GetTopicID returns maps back to the queried name for that client (queries repeated, the implementation iterates Go maps).",
+        note=_PURE_NOTE, technique="exhaustive enumeration of the small sub-space + PBT; oracle = reference lookup and a round-trip relation"),
+    "C18": dict(
+        text="Exploration (race-detector build, virtual clock): generated schedules in which Success/Fail/Proceed/context-cancel are released together on separate goroutines at instants that coincide with timer expiries, with zero and minimal delays and failing retry callbacks; oracle: completion callback exactly once, Err() stable after Done, no retry after a quiescent point with Done closed, no panic, no race report (process death is attributed to the case written to disk beforehand).",
+        note=_PURE_NOTE + " A bubble fixes time but not the order of goroutines runnable at the same instant: the race detector reports unordered conflicting accesses whether or not the bad overlap happened in that run; interleavings that need several specific context switches may be missed.",
+        technique="PBT over racing operation schedules under the race detector and synctest; history invariants as oracle"),
+    "C19": dict(
+        text="Exploration: retry and timed transactions on the virtual clock with one driver goroutine; RetryCount 0-6, delays 1 ms..60 s, progress events and the final completion at offsets that never coincide with a timer instant (small space enumerated); the oracle is exact on virtual timestamps: callbacks at T+d..T+c*d after the last progress, 'no more retries' at T+(c+1)*d, 'timeout' exactly at the timeout, nothing after completion.",
+        note=_PURE_NOTE, technique="PBT with an exact timing model on a virtual clock (testing/synctest); partial exhaustive enumeration"),
+    "C29": dict(
+        text="Exploration: the ID sequence against a counter model exhaustively for all small ranges, ranges ending at 0xFFFF and the full range, and concurrently (2-8 goroutines, race-detector build) by comparing the multiset of results with the model's first N outputs; the transaction store and ClientState by recording generated concurrent programs with call/return times and deciding linearizability against an atomic map / register with porcupine.",
+        note=_PURE_NOTE + " Real goroutines on real cores: which overlaps occur is up to the scheduler; the race detector reports unsynchronised accesses regardless.",
+        technique="model-based testing (exhaustive small ranges) + concurrent PBT with a linearizability checker (porcupine) under the race detector"),
+})
